@@ -40,6 +40,7 @@ struct PlanT {
     uint64_t content_seed = 0;
     int sessions = 1;
     int relation[3] = {0, 0, 0}; // session i vs session 0: 0 independent, 1 same key, 2 same header, 3 twin (both)
+    uint32_t header_kind = 0;    // what the random source serves for session 0's header: 0 random, 1 all zero, 2 all 0xff, 3 zero except the last byte
     uint32_t stack_fill = 0;     // stale stack under every library call: 0 as left by the harness, 1 zeros, 2 0xA5 bytes, 3 0xFF bytes
     uint32_t key_in_state = 0;   // bit 0 / bit 1: the key handed to init_push / init_pull lives in the state object being initialised (state->k)
     uint32_t state_align = 0;    // two 4-bit offsets: where the sender's / receiver's state object sits modulo 16
@@ -123,6 +124,7 @@ struct Exec {
             ref::Bytes k, h;
             content(k, 32, 0x1000 + (uint64_t) i); content(h, 24, 0x2000 + (uint64_t) i);
             if (i > 0 && (s.relation & 1)) memcpy(k.data(), ss[0].key, 32);
+            if (i == 0 && plan.header_kind) { memset(h.data(), plan.header_kind == 2 ? 0xff : 0x00, 24); if (plan.header_kind == 3) h[23] = 1; res.count("probe.degenerate_header"); }
             if (i > 0 && (s.relation & 2)) memcpy(h.data(), ss[0].header, 24);
             memcpy(s.key, k.data(), 32);
             // the header comes out of the library's random source: script it
@@ -507,6 +509,7 @@ struct C09 {
         p.state_align = (uint32_t) knobs.below(256);
         p.key_in_state = knobs.chance(1, 6) ? (uint32_t) knobs.range(1, 3) : 0;
         p.stack_fill = (uint32_t) knobs.below(4);
+        p.header_kind = knobs.chance(1, 8) ? (uint32_t) knobs.range(1, 3) : 0;
         for (int i = 1; i < 3; i++) p.relation[i] = (int) knobs.below(4);
         {
             // 1, or shortly before a boundary of the little-endian counter: full wrap (automatic rekey), and
@@ -571,7 +574,7 @@ struct C09 {
         j["knobs"] = p.pk;
         j["content_seed"] = p.content_seed; j["sessions"] = p.sessions;
         Json rel = Json::array(); for (int i = 0; i < 3; i++) rel.push(p.relation[i]);
-        j["relation"] = rel; j["start_counter"] = p.start_counter; j["state_align"] = p.state_align; j["key_in_state"] = p.key_in_state; j["stale_stack"] = p.stack_fill;
+        j["relation"] = rel; j["start_counter"] = p.start_counter; j["state_align"] = p.state_align; j["key_in_state"] = p.key_in_state; j["stale_stack"] = p.stack_fill; j["header_kind"] = p.header_kind;
         Json ops = Json::array();
         for (auto &o : p.ops) {
             Json q = Json::object();
@@ -603,7 +606,7 @@ struct C09 {
         if (p.sessions < 1) p.sessions = 1;
         if (p.sessions > 3) p.sessions = 3;
         for (size_t i = 0; i < 3 && i < j.at("relation").a.size(); i++) p.relation[i] = (int) j.at("relation").a[i].i64();
-        p.start_counter = (uint32_t) j.at("start_counter").u64(); p.state_align = (uint32_t) j.at("state_align").u64(); p.key_in_state = (uint32_t) j.at("key_in_state").u64(); p.stack_fill = (uint32_t) j.at("stale_stack").u64();
+        p.start_counter = (uint32_t) j.at("start_counter").u64(); p.state_align = (uint32_t) j.at("state_align").u64(); p.key_in_state = (uint32_t) j.at("key_in_state").u64(); p.stack_fill = (uint32_t) j.at("stale_stack").u64(); p.header_kind = (uint32_t) j.at("header_kind").u64();
         for (auto &q : j.at("ops").a) {
             Op o;
             std::string k = q.at("op").str();
@@ -640,6 +643,7 @@ struct C09 {
         if (p.state_align) { Plan c = p; c.state_align = 0; push(c); }
         if (p.key_in_state) { Plan c = p; c.key_in_state = 0; push(c); }
         if (p.stack_fill) { Plan c = p; c.stack_fill = 0; push(c); }
+        if (p.header_kind) { Plan c = p; c.header_kind = 0; push(c); }
         if (p.start_counter && p.start_counter != 0xffffffffu) { Plan c = p; c.start_counter = 0xffffffffu; push(c); }
         if (p.sessions > 1) { Plan c = p; c.sessions--; push(c); }
         for (int i = 1; i < 3; i++) if (p.relation[i]) { Plan c = p; c.relation[i] = 0; push(c); }
